@@ -428,6 +428,29 @@ func runArbitrary(c *Ctx) {
 			other := valid[c.rng.Intn(len(valid))]
 			run(append(append([]byte{}, data...), other...), "spliced")
 		}
+		// the same fields arriving in both slice forms (counted and repeated), in either order,
+		// also into targets whose slices are full (len == cap)
+		flipped := tc.Cfg
+		flipped.ProtoArrays = !flipped.ProtoArrays
+		if !protoUnsafe(tc.T) {
+			tcf := newTypeCase(tc.T, flipped)
+			for j := 0; j < 3; j++ {
+				v1, v2 := vg.Value(tc.T, d), vg.Value(tc.T, d)
+				d1, e1 := tc.P.Marshal(nil, v1.Addr().Interface())
+				d2, e2 := tcf.P.Marshal(nil, v2.Addr().Interface())
+				if e1 != nil || e2 != nil {
+					continue
+				}
+				run(append(append([]byte{}, d1...), d2...), "mixed-forms")
+				run(append(append([]byte{}, d2...), d1...), "mixed-forms")
+				if !(tc.Rec && len(d2) > 12) {
+					prior := vg.Value(tc.T, d)
+					c.guarded(fmt.Sprintf("full-prior type=%s data=%x", tc.T, d2), func() {
+						c.addDec(tc, d2, prior, "full-prior", "full-prior/"+shapeClass(tc.T, 2), true)
+					})
+				}
+			}
+		}
 	}
 }
 
